@@ -243,9 +243,65 @@ def seed_reported_is_the_seed_used(ctx, rep):
     return n
 
 
+class _CountingTarget:
+    """a stateful callable object (a model with a cache / an evaluation counter), picklable and deep-copyable"""
+    def __init__(self, shift):
+        self.shift, self.n_calls, self.trace = shift, 0, []
+
+    def __call__(self, x):
+        import numpy as np
+        self.n_calls += 1
+        self.trace.append(float(np.sum(np.asarray(x))))
+        return float(np.sum((np.asarray(x) - self.shift) ** 2))
+
+
+class _CountingCons:
+    def __init__(self):
+        self.n_calls = 0
+
+    def __call__(self, X):
+        import numpy as np
+        self.n_calls += 1
+        return np.sum(np.atleast_2d(X) ** 2, axis=1) > 25.0
+
+
+def result_holds_copies_of_callables(ctx, rep):
+    """`result.fun` / `result.non_box_cons` for a target / constraint given as stateful callable OBJECTS: what the result holds is a copy
+    as of the end of the run - using the objects again afterwards (the caller evaluating its model once more, a second optimize()) must not
+    change what the first result reports."""
+    from pybads import BADS
+    import numpy as np
+    rng = ctx.sub_rng("c19callable")
+    n = 0
+    for later in ("call", "second_run", "call"):
+        D = rng.choice([1, 2])
+        tgt, cons = _CountingTarget(0.4), (_CountingCons() if later != "call" or rng.random() < 0.5 else None)
+        b = BADS(tgt, np.full(D, 0.3), np.full(D, -4.0), np.full(D, 6.0), np.full(D, -2.0), np.full(D, 3.0), non_box_cons=cons,
+                 options={"display": "off", "max_fun_evals": D + 14, "random_seed": 3})
+        res = b.optimize()
+        n += 1
+        case = {"kind": "result_callable", "D": D, "later": later, "constrained": cons is not None}
+        before = (getattr(res["fun"], "n_calls", None), len(getattr(res["fun"], "trace", [])), getattr(res["non_box_cons"], "n_calls", None) if cons is not None else None)
+        if later == "call":
+            tgt(np.full(D, 0.1)); tgt(np.full(D, 0.2))
+            if cons is not None:
+                cons(np.full((1, D), 0.1))
+        else:
+            try:
+                b.optimize()
+            except Exception:
+                pass
+        after = (getattr(res["fun"], "n_calls", None), len(getattr(res["fun"], "trace", [])), getattr(res["non_box_cons"], "n_calls", None) if cons is not None else None)
+        if after != before:
+            rep.violation("result_holds_copies", "optimize_result.py:__setitem__", f"the (calls, trace length, constraint calls) state of result.fun / result.non_box_cons changed from {before} to {after} "
+                          f"after the run that produced the result had ended ({'the caller used its target object again' if later == 'call' else 'optimize() was called a second time'}): the result holds the live objects, not copies", case)
+    return n
+
+
 def run(ctx):
     rep = Report()
     cstats = container_level(ctx, rep)
+    cstats["callable_copies"] = result_holds_copies_of_callables(ctx, rep)
     cstats["x0_snapshots"] = start_point_is_a_snapshot(ctx, rep)
     cstats["seed_reports"] = seed_reported_is_the_seed_used(ctx, rep)
     runlevel.with_extra(ctx, "c19he", lambda: he_repeat_specs(ctx))
@@ -276,6 +332,9 @@ def replay(ctx, data):
         return rep
     if c.get("kind") == "x0_snapshot":
         start_point_is_a_snapshot(ctx, rep)
+        return rep
+    if c.get("kind") == "result_callable":
+        result_holds_copies_of_callables(ctx, rep)
         return rep
     if c.get("kind") == "seed_report":
         seed_reported_is_the_seed_used(ctx, rep)
